@@ -345,6 +345,7 @@ def build(p):
   from . import C03
   p.native('ClientDataset.', D, 'entry')
   C03.v_entry_points(p, only=('shuffle_repeat_batch',))
+  C03.v_view_stateless(p, ('ShuffleRepeatBatchView',))
   p.trust(
       'T-NP: RandomState(seed) is a deterministic function of seed != None; rng.shuffle(buf) '
       'replaces buf by a permutation of itself (uninterpreted SHUF) and advances the generator',
